@@ -14,6 +14,8 @@ CHECKS = {
          "metrics bounded by 2^20; HarfBuzz by contract; scale arithmetic inside HarfBuzz outside"),
  "C15": ("symbolic execution of the real retainsBestMatches/matchStretch/matchStyle/matchWeight/filterBy* over candidate sets whose aspects are symbolic grid values (IEEE float32 terms), every request case-split; the solver decides equality with a CSS Fonts §5.2 reference for all candidate multisets of the bounded size",
          "values off the grid and larger candidate sets outside"),
+ "C16": ("every deserializer of the index format (string, aspect, script/rune/lang sets, footprint, footprint list, file entry) executed on arbitrary symbolic byte strings (totality, read counts) and serialize->deserialize round trips of symbolic footprints and file entries, float aspects compared by bit pattern",
+         "first two sentences of the property at the level of the binary format: the gzip layer, file I/O and the incremental refresh over file-system histories (os.ReadDir/Stat) are outside the claim; totality on fully arbitrary bytes is bounded by the stated lengths, deeper stages are reached with the count fields case-split"),
  "C18": ("the real propagateFlags and unsafeToBreak/setGlyphFlags/infosSetGlyphFlags on arbitrary buffers (symbolic masks, monotone clusters, buffer flags, cluster levels): flag uniformity inside clusters and exact flag placement decided for all buffers within the glyph-count bound",
          "second sentence of the property only (flag uniformity and its flag-setting kernel); the cut-and-reshape law needs the real shaper on real fonts and is outside the claim"),
  "C19": ("bounded symbolic execution of the real WriteTTF/checksum/writeTTFHeader and NewLoader/Tables/RawTable; an SMT solver decides every assertion for all table contents, tags and spare-capacity bytes within the table-count/length bound",
